@@ -19,7 +19,8 @@ func (propC11) ID() string { return "C11" }
 var c11Alphabet = []rune{'a', 'b', '\n', '\r', '\n', '\r', 'é', 0x1F600}
 
 func (propC11) Gen(r *Rand) *Plan {
-	n := r.Range(0, 12*Scale)
+	size := r.Size()
+	n := r.Range(0, 12*size)
 	if r.Bool(0.1) {
 		n = r.Range(0, 2)
 	}
@@ -27,7 +28,7 @@ func (propC11) Gen(r *Rand) *Plan {
 	for i := range content {
 		content[i] = r.PickRune(c11Alphabet)
 	}
-	nops := r.Range(1, 40*Scale)
+	nops := r.Range(1, 40*size)
 	// biased phases
 	phase := r.Intn(4)
 	var ops []Op
